@@ -3,6 +3,7 @@ inputs, discharge every obligation, cross-check each path against CPython + NumP
 import time, hashlib, signal, traceback, random, os, sys
 import z3
 from . import core as sc
+from .poly import NormalFormLimit
 from .core import SReal, SBool
 from . import symbolic as sy
 from .symbolic import SymEnv, SymChecker, Oblig, Budget
@@ -48,7 +49,7 @@ def run_job(args):
         _run(cid, cfg_idx, seed, out, prefixes)
     except JobTimeout as e:
         out['engine_error'] = 'timeout: %s' % e
-    except sc.EngineError as e:
+    except (sc.EngineError, NormalFormLimit) as e:
         out['engine_error'] = '%s: %s' % (type(e).__name__, e)
         out['trace'] = traceback.format_exc()[-2000:]
     except Exception as e:
